@@ -57,6 +57,7 @@ static int cfg_sched = 1;
 /* ------------------------------------------------------------------ counters */
 static uint64_t n_access, n_switch, n_regions_run, sched_hash = 1469598103934665603ULL;
 static uint64_t n_sched_points;
+static uint64_t n_parks = 0;
 
 /* ---------------------------------------------------------------- regions */
 #define MAXREG 256
@@ -154,6 +155,7 @@ EXPORT void vrt_reset(void) {
     nreg = 0;
     nvio = 0;
     n_access = n_switch = n_regions_run = n_sched_points = 0;
+    n_parks = 0;
     sched_hash = 1469598103934665603ULL;
     /* keep only the stack of the calling (main) thread */
     nstk = 0;
@@ -230,10 +232,67 @@ EXPORT int64_t vrt_unwritten(int region, int64_t *first) {
     return c;
 }
 
-/* ---------------------------------------------------------------- threads */
-enum { T_RUNNABLE = 0, T_BARRIER, T_LOCKWAIT, T_DONE };
+/* ------------------------------------------------- race-directed scheduling
+ * sched mode 2: profile pass 1 (sequential team): for every 4-byte cell remember which thread touched it and
+ *               whether two different threads did, at least one of them writing  -> "shared-written" cells
+ * sched mode 3: profile pass 2 (sequential team): every access to a shared-written cell adds its PC to the hot set
+ * sched mode 4: random scheduling + a thread executing an access at a hot PC is PARKED with probability 1/2:
+ *               it is not scheduled again until no other thread is runnable (or a random un-park), which holds it
+ *               inside read-modify-write / publish windows while the other threads overtake it.               */
+#define PT_BITS 20
+#define PT_SIZE (1u << PT_BITS)
 typedef struct {
-    int tid, state, loops_seen, yield_next;
+    uintptr_t cell;
+    int16_t tid;
+    uint8_t written, shared;
+} pcell_t;
+static pcell_t *ptab = NULL;
+#define HOT_MAX 512
+static uintptr_t hot_pc[HOT_MAX];
+static int n_hot = 0;
+static uint8_t hot_filter[4096];
+static uint64_t n_shared_cells = 0;
+
+EXPORT void vrt_profile_clear(void) {
+    if (!ptab) ptab = (pcell_t *)__real_calloc(PT_SIZE, sizeof(pcell_t));
+    else __real_memset(ptab, 0, PT_SIZE * sizeof(pcell_t));
+    n_hot = 0;
+    n_shared_cells = 0;
+    __real_memset(hot_filter, 0, sizeof(hot_filter));
+}
+EXPORT int vrt_hot_count(void) { return n_hot; }
+EXPORT uint64_t vrt_hot_pc(int i) { return (i >= 0 && i < n_hot) ? (uint64_t)(hot_pc[i] - lib_base) : 0; }
+EXPORT uint64_t vrt_parks(void) { return n_parks; }
+EXPORT uint64_t vrt_shared_cells(void) { return n_shared_cells; }
+
+static inline pcell_t *pfind(uintptr_t cell, int create) {
+    uint32_t h = (uint32_t)((cell * 0x9E3779B97F4A7C15ULL) >> (64 - PT_BITS));
+    int probe;
+    for (probe = 0; probe < 64; probe++) {
+        pcell_t *e = &ptab[(h + probe) & (PT_SIZE - 1)];
+        if (e->cell == cell) return e;
+        if (e->cell == 0) {
+            if (!create) return NULL;
+            e->cell = cell;
+            e->tid = -1;
+            return e;
+        }
+    }
+    return NULL;
+}
+
+static inline int is_hot(uintptr_t pc) {
+    int i;
+    if (!hot_filter[(pc >> 1) & 4095]) return 0;
+    for (i = 0; i < n_hot; i++)
+        if (hot_pc[i] == pc) return 1;
+    return 0;
+}
+
+/* ---------------------------------------------------------------- threads */
+enum { T_RUNNABLE = 0, T_BARRIER, T_LOCKWAIT, T_DONE, T_PARKED };
+typedef struct {
+    int tid, state, loops_seen, yield_next, parks_left;
     int64_t countdown;
     sem_t sem;
     pthread_t th;
@@ -331,6 +390,16 @@ static int pick_runnable(void) {
     int i, c = 0, k;
     for (i = 0; i < team_n; i++)
         if (T[i].state == T_RUNNABLE) c++;
+    if (c == 0 || (cfg_sched == 4 && rnd_below(64) == 0)) {
+        /* nobody else can run (or a rare random un-park): release the parked threads */
+        int np = 0;
+        for (i = 0; i < team_n; i++)
+            if (T[i].state == T_PARKED) {
+                T[i].state = T_RUNNABLE;
+                np++;
+            }
+        c += np;
+    }
     if (c == 0) return -1;
     k = (int)rnd_below((uint32_t)c);
     for (i = 0; i < team_n; i++)
@@ -360,11 +429,57 @@ static inline int64_t new_gap(void) {
     return 1 + (int64_t)rnd_below((uint32_t)(2 * cfg_mean_gap));
 }
 
+static inline void profile_access(uintptr_t a, size_t n, int is_write, uintptr_t pc) {
+    if (!team_active || !me || !ptab) return;
+    if (cfg_sched == 2) {
+        uintptr_t c;
+        for (c = a >> 2; c <= (a + n - 1) >> 2; c++) {
+            pcell_t *e = pfind(c + 1, 1);
+            if (!e) continue;
+            if (e->tid < 0) e->tid = (int16_t)me->tid;
+            else if (e->tid != me->tid && !e->shared) {
+                e->shared = 1;
+            }
+            if (is_write) e->written = 1;
+        }
+    } else if (cfg_sched == 3) {
+        uintptr_t c;
+        for (c = a >> 2; c <= (a + n - 1) >> 2; c++) {
+            pcell_t *e = pfind(c + 1, 0);
+            if (e && e->shared && e->written) {
+                n_shared_cells++;
+                if (!is_hot(pc) && n_hot < HOT_MAX) {
+                    hot_pc[n_hot++] = pc;
+                    hot_filter[(pc >> 1) & 4095] = 1;
+                }
+                break;
+            }
+        }
+    } else if (cfg_sched == 4 && me->parks_left > 0 && is_hot(pc) && rnd_below(4) == 0) {
+        int next;
+        me->parks_left--;
+        /* park: let the others overtake while we sit just before this access */
+        me->state = T_PARKED;
+        n_parks++;
+        next = pick_runnable();
+        if (next < 0) deadlock("parking left nobody runnable");
+        if (T[me->tid].state == T_PARKED && next == me->tid) T[me->tid].state = T_RUNNABLE;
+        sched_hash = (sched_hash ^ 0x9e37u) * 1099511628211ULL;
+        if (next != me->tid) {
+            n_switch++;
+            sched_hash = (sched_hash ^ (uint64_t)(next + 1)) * 1099511628211ULL;
+            sem_post(&T[next].sem);
+            sem_wait(&me->sem);
+        }
+        me->state = T_RUNNABLE;
+    }
+}
+
 static inline void sched_point(int is_write, int force) {
     int next;
     if (!team_active || !me) return;
     n_sched_points++;
-    if (!cfg_sched) return;
+    if (cfg_sched != 1 && cfg_sched != 4) return;
     if (me->yield_next) {
         me->yield_next = 0;
         force = 1;
@@ -423,6 +538,7 @@ EXPORT void GOMP_parallel(void (*fn)(void *), void *data, unsigned nthreads, uns
         T[i].state = T_RUNNABLE;
         T[i].loops_seen = 0;
         T[i].yield_next = 0;
+        T[i].parks_left = 24;   /* bound the cost: a few dozen parks per thread and region */
         T[i].countdown = new_gap();
         sem_init(&T[i].sem, 0, 0);
     }
@@ -450,7 +566,7 @@ EXPORT void GOMP_parallel(void (*fn)(void *), void *data, unsigned nthreads, uns
             nstk++;
         }
     }
-    first = cfg_sched ? (int)rnd_below((uint32_t)n) : 0;
+    first = (cfg_sched == 1 || cfg_sched == 4) ? (int)rnd_below((uint32_t)n) : 0;
     sched_hash = (sched_hash ^ (uint64_t)(first + 1)) * 1099511628211ULL;
     if (first != 0) {
         sem_post(&T[first].sem);
@@ -508,7 +624,7 @@ EXPORT void GOMP_atomic_end(void) { lock_release(); }
 
 static int ws_next_chunk(long *istart, long *iend) {
     long s, e;
-    sched_point(0, cfg_sched && rnd_below(4) == 0);
+    sched_point(0, (cfg_sched == 1 || cfg_sched == 4) && rnd_below(4) == 0);
     if (ws.incr > 0) {
         if (ws.next >= ws.end) return 0;
         s = ws.next;
@@ -565,22 +681,26 @@ EXPORT int omp_in_parallel(void) { return team_active; }
 #define RD(N)                                                                                                          \
     EXPORT void __tsan_read##N(void *a) {                                                                              \
         n_access++;                                                                                                    \
+        if (cfg_sched >= 2) profile_access((uintptr_t)a, N, 0, PC);                                                    \
         sched_point(0, 0);                                                                                             \
         check_access((uintptr_t)a, N, 0, PC);                                                                          \
     }                                                                                                                  \
     EXPORT void __tsan_unaligned_read##N(void *a) {                                                                    \
         n_access++;                                                                                                    \
+        if (cfg_sched >= 2) profile_access((uintptr_t)a, N, 0, PC);                                                    \
         sched_point(0, 0);                                                                                             \
         check_access((uintptr_t)a, N, 0, PC);                                                                          \
     }
 #define WR(N)                                                                                                          \
     EXPORT void __tsan_write##N(void *a) {                                                                             \
         n_access++;                                                                                                    \
+        if (cfg_sched >= 2) profile_access((uintptr_t)a, N, 1, PC);                                                    \
         sched_point(1, 0);                                                                                             \
         check_access((uintptr_t)a, N, 1, PC);                                                                          \
     }                                                                                                                  \
     EXPORT void __tsan_unaligned_write##N(void *a) {                                                                   \
         n_access++;                                                                                                    \
+        if (cfg_sched >= 2) profile_access((uintptr_t)a, N, 1, PC);                                                    \
         sched_point(1, 0);                                                                                             \
         check_access((uintptr_t)a, N, 1, PC);                                                                          \
     }
@@ -608,7 +728,7 @@ EXPORT int __tsan_atomic32_fetch_add(volatile int *a, int v, int mo) {
     n_access++;
     sched_point(1, 0);
     check_access((uintptr_t)a, 4, 1, PC);
-    old = *a;
+    old = *a;      /* atomic: no schedule point between the read and the write */
     *a = old + v;
     return old;
 }
